@@ -298,8 +298,8 @@ Theorem C16_average_binary64_variance_code : forall (p : R) W (ops : list (oop R
 Proof. exact variance_b64_code. Qed.
 
 (* Print Assumptions, grouped (one traversal per group instead of one per theorem: the source-tie theorems that do not
-   mention the reals are closed under the global context; the others depend on the standard real-number axioms only) *)
-Definition C16_source_tie_axiom_free_group := (@C16_source_tie_average_members,
+   mention the reals are closed under the global context; the others depend on the standard assumptions of the real numbers only) *)
+Definition C16_source_tie_closed_group := (@C16_source_tie_average_members,
   @C16_source_tie_average_update,
   @C16_source_tie_variance_members,
   @C16_source_tie_variance_update,
@@ -309,7 +309,7 @@ Definition C16_source_tie_axiom_free_group := (@C16_source_tie_average_members,
   @C16_source_tie_accesses_defined,
   @C16_source_tie_variance_accesses_defined,
   @C16_source_tie_ring_history).
-Print Assumptions C16_source_tie_axiom_free_group.
+Print Assumptions C16_source_tie_closed_group.
 Definition C16_real_and_binary64_group := (@C16_source_tie_average_is_mean,
   @C16_source_tie_variance_is_unbiased,
   @C16_average_binary64_multiplier,
